@@ -69,6 +69,9 @@ def run(chk, F):
         "soundness over the ~4000 units of the database are data and not decided.")
     chk.guard("shortcut", "eval_query", lambda: shortcut(chk, F))
     chk.guard("units-for-filter", "eval_query", lambda: units_for(chk, F))
+    # the alias filter of `units for` reads Registry::definitions[name]: it must be the unit's own definition
+    import loader_rules
+    chk.guard("definitions-not-overwritten", "load_defs", lambda: loader_rules.definitions_precedence(chk, F))
     chk.guard("factorize-structure", "factorize", lambda: factorize(chk, F))
     chk.guard("dedup-total-order", "Factors", lambda: dedup_order(chk, F))
 
